@@ -417,6 +417,20 @@ Definition read_fuel (text : list Z) : nat := (4 * length text + 8)%nat.
 Definition read (text : list Z) : status * list sexp :=
   observe (parse_whole true false (read_fuel text) (scan_text text)).
 
+(* ---- the REPL front end (repl.go Prompter.getExpressionWithLiner): the text is delivered line by line, every line
+        with its newline, until the parser no longer asks for more input ---- *)
+
+(* the lines of a text, each with its terminating newline; the last one without *)
+Fixpoint split_lines_from (cur : list Z) (t : list Z) : list (list Z) :=
+  match t with
+  | [] => [rev cur]
+  | c :: rest => if c =? 10 then rev (c :: cur) :: split_lines_from [] rest else split_lines_from (c :: cur) rest
+  end.
+Definition split_lines (t : list Z) : list (list Z) := split_lines_from [] t.
+
+Definition read_repl (text : list Z) : status * list sexp :=
+  observe (parse_pieces true false (read_fuel text) (split_lines (scan_text text))).
+
 (* ---- the exact mathematical value of a numeric notation (independent of Reader.digits_val:
         most significant digit first, value = d * base^(number of digits after it) + rest) ---- *)
 
